@@ -377,9 +377,18 @@ impl ShardSplitter {
                 min_time: old_metadata.min_time,
                 max_time: split_ts,
             };
-            self.metadata
-                .update_shard_metadata(&new_shard_a.shard_id, &new_shard_a, 0)
-                .await?;
+            // The create may already have taken effect in a run that was
+            // interrupted before it could be recorded.
+            if self
+                .metadata
+                .get_shard_metadata(&new_shard_a.shard_id)
+                .await?
+                .is_none()
+            {
+                self.metadata
+                    .update_shard_metadata(&new_shard_a.shard_id, &new_shard_a, 0)
+                    .await?;
+            }
             progress.shard_a_created = true;
             self.persist_progress(progress).await?;
         }
@@ -398,9 +407,16 @@ impl ShardSplitter {
                 min_time: split_ts,
                 max_time: old_metadata.max_time,
             };
-            self.metadata
-                .update_shard_metadata(&new_shard_b.shard_id, &new_shard_b, 0)
-                .await?;
+            if self
+                .metadata
+                .get_shard_metadata(&new_shard_b.shard_id)
+                .await?
+                .is_none()
+            {
+                self.metadata
+                    .update_shard_metadata(&new_shard_b.shard_id, &new_shard_b, 0)
+                    .await?;
+            }
             progress.shard_b_created = true;
             self.persist_progress(progress).await?;
         }
